@@ -156,6 +156,15 @@ func firstDiff(a, b []string) int {
 	return -1
 }
 
+// Values that lie outside the small tidy examples: long lists, digits, hyphens, Punycode, unusual schemes, five-digit
+// ports, token characters that are rare in header and method names, interior integers.
+var (
+	richOrigins = []string{"https://api-v2.example.co.uk", "https://*.example.co.uk", "https://xn--bcher-kva.example:49152", "chrome-extension://abcdefghijklmnopabcdefghijklmnop", "app+v1.0://host-1.internal:10000", "https://*.host-1.internal:*", "https://example.co.uk:10443"}
+	richMethods = []string{"PUT", "DELETE", "M-SEARCH", "PATCH", "REPORT", "a*b!c"}
+	richReqHdrs = []string{"X-Requested-With", "Content-Type", "X-Api_Key.v2", "x-trace~id", "X-B3-TraceId", "If-None-Match", "x!#$%&'*+^`|~"}
+	richResHdrs = []string{"X-Request-Id", "ETag", "X-RateLimit-Remaining", "x_odd.name~1", "Link"}
+)
+
 var noopHandler = http.HandlerFunc(func(http.ResponseWriter, *http.Request) {})
 
 // Construction routes. The documentation promises that all of them yield the same middleware (C06, C08, C09);
